@@ -82,20 +82,8 @@ def pred_f22(case, record, exp=None):
     return any(c["res"] == 4 for c in calls)
 
 
-BITS = [(16, "F23")]   # F16, F17, F21, F22 are fixed in /repo (their deviation ids no longer explain anything)
-def pred_f23(case, record, exp=None):
-    """a JS exception that arrives as a Go panic unwinds a for-of whose iterator's JS return() is hit by an uncatchable error"""
-    if not any(n["t"] == "forof" and n.get("jr") for n in _all_nodes(case)):
-        return False
-    if not _uncatchable_possible(case):
-        return False
-    calls = _calls(record)
-    if calls is None:
-        return True
-    return any(c["res"] in (2, 3, 4) for c in calls) and any(c["idle"][5] > 0 or c["idle"][6] > 0 or c["idle"][0] != 0 for c in calls)
-
-
-PRED_BY_ID = {"F23": pred_f23}
+BITS = []   # every finding of this property is fixed in /repo: every disagreement is a violation
+PRED_BY_ID = {}
 
 
 # ---------------------------------------------------------------------------------------------------
@@ -288,10 +276,10 @@ CFG = {
              "2 faults (JS throw, GoError, foreign Go panic, Interrupt, deep recursion) at the k-th probe(); after EACH call "
              "VerifIdle, the register vector at every probe(), the effect log and the result class are compared with the "
              "model; non-trivial = some call ended abruptly; distinct = by hash of the case"),
-    "theorem_names": ["idle_restored_partial", "idle_restored", "idle_restored_jobs", "history_idle", "nested_entry_restored",
+    "theorem_names": ["idle_restored", "idle_restored_jobs", "history_idle", "nested_entry_restored",
                       "next_run_equivalent", "handleThrow_restores", "handleThrow_idem", "uncatchable_never_caught",
                       "handleThrow_shrinks", "raise_closes_then_truncates", "close_items_native_log",
-                      "former_findings_repaired", "idle_refuted_F23"],
+                      "former_findings_repaired"],
     "allowed_axioms": [],
     "trusted_base": [
         "Coq 8.16.1 kernel + vm_compute (no native_compute); theorems closed under the global context (no axioms)",
@@ -307,7 +295,7 @@ CFG = {
         "a native function always re-panics an uncatchable error returned to it by Callable/RunString",
         "the implementation is tied to the model only on the generated histories (correspondence), not by proof",
     ],
-    "predicates": {"C03.f23": pred_f23},
+    "predicates": {},
     "manifest": {
         "text": ("proof: for every execution tree (JS frames, native frames calling back through Callable / accessor Get / "
                  "re-entrant RunProgram / Try / ForOf, try regions, iterator regions, generator and async resumptions, promise "
